@@ -50,7 +50,7 @@ def build(kind):
     """fresh dispatcher + resources + call log"""
     log = []
 
-    def mk(rid, table):
+    def mk(rid, table, binding=None):
         # table: method name -> message class ; built with real decorators
         ns = {"rid": rid}
         def handler_s(_n, cls):
@@ -71,7 +71,19 @@ def build(kind):
             h.__name__ = _n
             return client_event(h)
         for mname, cls in table.items():
-            ns[mname] = handler_s(mname, cls) if kind == "server" else handler_c(mname, cls)
+            how = (binding or {}).get(mname)
+            if how == "static":
+                # a staticmethod handler: no self at all
+                def hs_(*args, _n=mname):
+                    log.append(("%s.%s" % (rid, _n), args))
+                    if args[-1].v < 0:
+                        raise RAISES[(-args[-1].v) % len(RAISES)]("handler fails (injected)")
+                hs_.__annotations__ = {"msg": cls}
+                hs_.__name__ = mname
+                ns[mname] = staticmethod(server_event(hs_) if kind == "server" else client_event(hs_))
+                continue
+            h = handler_s(mname, cls) if kind == "server" else handler_c(mname, cls)
+            ns[mname] = classmethod(h) if how == "class" else h
         return type(rid, (object,), ns)()
 
     from checks import c20_future
@@ -87,11 +99,14 @@ def build(kind):
         "R5": mk("R5", {"a_first_c": C20C, "z_last_a": C20A}),
         # two handlers for ONE class inside one resource (class annotation + string annotation): always refused
         "R6": mk("R6", {"on_c_one": C20C, "on_c_two": "C20C", "on_b": C20B}),
+        # handlers that are not plain instance methods: classmethods (bound to the class, not to the resource object)
+        "R7": mk("R7", {"on_c": C20C, "on_a": C20A}, {"on_c": "class", "on_a": "class"}),
     }
     handlers = {
         "R1": {"A": "R1.on_a", "B": "R1.on_b"}, "R2": {"A": "R2.on_a"}, "R3": {"C": "R3.on_c"},
         "R4": {"B": "R4.a_first_b", "C": "R4.z_last_c"}, "R5": {"C": "R5.a_first_c", "A": "R5.z_last_a"},
         "R6": {"C": "R6.on_c_one", "B": "R6.on_b"},
+        "R7": {"C": "R7.on_c", "A": "R7.on_a"},
     }
     disp = ServerMessageDispatcher() if kind == "server" else ClientMessageDispatcher()
     return disp, res, handlers, log
@@ -116,7 +131,7 @@ def names_of(rid, c, hs):
     return ALSO.get((rid, c), {hs[c]})
 
 
-OPS = [("register", r) for r in ("R1", "R2", "R3", "R4", "R5", "R6")] + [("unregister", r) for r in ("R1", "R2", "R3", "R4", "R5", "R6")] + \
+OPS = [("register", r) for r in ("R1", "R2", "R3", "R4", "R5", "R6", "R7")] + [("unregister", r) for r in ("R1", "R2", "R3", "R4", "R5", "R6", "R7")] + \
       [("dispatch", m) for m in ("A", "B", "C", "D")] + [("register_function", "A"), ("register_function_byname", "B"), ("unregister_function", "A"), ("unregister_function", "C")]
 
 
